@@ -12,7 +12,7 @@ for line in open(os.path.join(ROOT, "properties.jsonl")):
 
 # id -> (technique, level text, level_note, design_ref)
 CLAIMED = {
-    "C01": ("differential runtime monitoring: CEK reference machine vs native process (stdout bytes, exit status) on generated programs; valgrind memcheck on a sample (thorough)",
+    "C01": ("differential runtime monitoring: CEK reference machine vs native process (stdout bytes, exit status) on generated programs; native stdout of the repository's hand-written programs (examples/, testsuite/end_to_end/, built-in programs over non-regular types) vs their recorded expected output; valgrind memcheck on a sample (thorough)",
             "Held on K generated well-typed programs x argument tuples executed natively; every listed count is measured. Exploration, not proof: only executed programs are judged.",
             "Trusted: the harness' CEK machine (DESIGN 2.1), the generator's own typing, GNU as after a syntax-only NASM->GAS transliteration, gcc, the host CPU.", "6/C01"),
     "C02": ("differential runtime monitoring: CEK reference machine vs Core abstract machine on the translation output, each program also as its alpha-renamed twin (capture detector); static duplicate-definition check",
@@ -42,28 +42,28 @@ CLAIMED = {
     "C14": ("static label-table and operand-range monitor over every instruction of the printed text of all three backends; GNU as (x86-64, after syntax-only transliteration) and clang's integrated assembler (AArch64) as acceptance oracles; jump-table stride measured from the objects' symbol tables; second pass re-using generated definition names",
             "Held on K emitted files per backend (hostile identifiers, large jump tables, boundary literals).",
             "Trusted: the per-ISA operand-range tables of the harness; GNU as stands in for yasm (not installed); RISC-V output is pseudo-assembly, judged by the harness' validator only.", "6/C14"),
-    "C15": ("acceptance monitor on well-typed-by-construction programs plus 26 classes of certainly ill-typed single edits applied at recorded syntactic sites; oracle = result of parse_module + Program::check",
+    "C15": ("acceptance monitor on well-typed-by-construction programs plus 29 classes of certainly ill-typed single edits applied at recorded syntactic sites; oracle = result of parse_module + Program::check",
             "Held on K generated programs and N mutants; per-class counts of applied and rejected mutants are in the evidence.",
             "Trusted: the generator's own typing discipline (DESIGN appendix A).", "6/C15"),
     "C17": ("byte comparison of every printable stage output across fresh processes with different environments (harness child processes and the real scc binary) and after other compilations in the same process (labels renamed by first occurrence)",
             "Held on K programs x N fresh processes; evidence reports the number of distinct outputs per stage (must be 1).",
             "Trusted: the OS gives each process a fresh hash seed.", "6/C17"),
-    "C18": ("fault-injection style input fuzzing: token/character mutations, nesting, special programs; panics caught in-process (8 MiB stack like the real tool), aborts/timeouts attributed through a current-case file, real scc binary on a sample",
+    "C18": ("fault-injection style input fuzzing: token/character mutations, nesting, special programs, valid programs over non-regular / mutually recursive types and their mutations, repository corpus mutations; panics caught in-process (8 MiB stack like the real tool), aborts/timeouts attributed through a current-case file, real scc binary on a sample",
             "Held on K inputs (valid UTF-8); termination judged as bounded progress (60 s per input).",
             "Trusted: catch_unwind + process-level attribution; later stages judged only for accepted programs with a valid main.", "6/C18"),
-    "C19": ("size monitor on 14 scalable program families with source linear in k: every stage output may grow at most 12x when k doubles (k = 4..16)",
-            "Held on the listed families up to k = 16; nothing is claimed for other program shapes.",
+    "C19": ("size monitor on 20 hand-written scalable program families and on randomly composed periodic shapes (9 branching forms x 10 ways of attaching the rest; all 90 single-link shapes, then thousands of random ones), source linear in k: every stage output may grow at most 12x when k doubles (k = 3..16)",
+            "Held on the listed families and the random shapes judged (count in the evidence) up to k = 16; nothing is claimed for other program shapes.",
             "Trusted: printed size / instruction count as the size measure.", "6/C19"),
-    "C20": ("clang ASan+UBSan build of io.c driven with boundary and random values; native x86-64 one-line programs for 0..5 parameters incl. wrong argument counts; AArch64 entry shuffle on the emulator for 0..7 parameters",
+    "C20": ("clang ASan+UBSan build of io.c driven with boundary and random values; native x86-64 programs for 0..5 parameters x 7 shapes of main's body (conditional, match, call, label, closure between the prints and the result) incl. wrong argument counts; AArch64 entry shuffle on the emulator for 0..7 parameters x the same shapes; print-placement matrix (0..23 live variables x kinds x printed position x boundary values) on the x86-64 and AArch64 emulators vs the AxCut positional machine",
             "Held on K values / runs.",
             "Trusted: clang sanitizer runtimes, host libc, the AArch64 emulator.", "6/C20"),
-    "C16": ("round-trip monitor parse(print(parse(t),w,i)) == parse(t) and print idempotence over widths 1..200 x indents 0..8 on generated noisy texts; scc fmt --inplace on a sample",
+    "C16": ("round-trip monitor parse(print(parse(t),w,i)) == parse(t) and print idempotence over widths 1..200 x indents 0..8 on generated noisy texts and on every .sc file of the repository; scc fmt --inplace on a sample",
             "Held on K parsed programs x N (width, indent) configurations.",
             "Trusted: the derived span-ignoring equality of the syntax tree.", "6/C16"),
     "C06": ("instrumented x86-64 emulator (poison tracking, bounds, wild-jump detection) on printed assembly text vs AxCut positional reference machine",
             "Held on K executions of emitted x86-64 text; sanitizer events and trace differences are violations.",
             "Trusted: the harness' AxCut machine and x86-64 subset emulator (cross-checked against native execution by C01's chain).", "6/C06"),
-    "C09": ("heap-shape and reference-count monitor run at every statement-boundary marker (hook) of emulated executions; bounds sanitizer on every memory access",
+    "C09": ("heap-shape and reference-count monitor run at every statement-boundary marker (hook) of emulated executions of generated programs, directly generated AxCut programs and the repository's hand-written programs (also when the positional reference machine rejects the linear program); bounds sanitizer on every memory access",
             "Held at N statement boundaries of K executions: partition of all blocks below the frontier into reachable/reusable/deferred/waiting and exact counts.",
             "Trusted: emulators (x86-64, AArch64, RISC-V) + monitor; roots are computed with the backend's own position->temporary map.", "6/C09"),
     "C10": ("footprint monitor over consecutive statement-boundary markers of emulated executions (fresh memory only when both free lists are empty; frontier <= peak reachable + c)",
